@@ -18,6 +18,8 @@ CLAIMED = {
          'Decides that every completion handler is owned by a slot or by a closure consumed by post()/a timer, never invoked/dispatched inline on a path from an initiating call, never borrowed or copied, never overwritten or cleared while possibly set, that cancel/close/destructor leave every slot empty with operation_aborted bound, and that posted closures do not capture this. Exactly-once across arbitrary interleavings of several operations is not decided.', '4/C04'),
  'C05': ('static: field-coverage of close() by per-field reset dataflow, closed writer tables for payload and sequence counters, guard-dominance and definition-provenance rules on the receive path',
          'Decides the reuse clause (close() resets every per-connection field on every path), that no hop writes payload bytes, that sequence counters have one source and every delivery is justified by a sequence test or a reorder lookup keyed by the expected number, that EOF is numbered and sequenced like data and surfaced only when no gathered byte is pending. The prefix property under arbitrary drops/read sizes is not decided.', '4/C05'),
+ 'C06': ('static: wake-up guards evaluated exhaustively over a finite abstract domain (sign of in_flight+mss-cwnd before/after; queue size classes), byte-account pairing rules, must-precede rules for the drop callback',
+         'Decides the structural causes of the three named stalls: every resource change (ACK, segment push, SYN-ACK, accept registration, queued SYN) reaches the waiter dispatch in every abstract state where the resource became available; every end of flight subtracts and erases; every (re)transmission carries an armed drop callback. Eventual delivery is not decided.', '4/C06'),
 }
 
 NOT_YET = {}
